@@ -16,7 +16,7 @@ def rand_rsel_norepeat(n):
     if k==4: return [random.random()<0.5 for _ in range(n)]
     return Ellipsis
 buckets = collections.defaultdict(list)
-for it in range(40000):
+for it in range(int(__import__("os").environ.get("RECON_N", 40000))):
     rows = rand_rows()
     if not rows: continue
     rsel = rand_rsel_norepeat(len(rows)); csel = rand_csel()
